@@ -4,7 +4,7 @@ from .progfam import *
 
 def run(tier, seed):
     return run_prog_property(
-        "C01", ["compile", "deep", "shared", "scoping", "fold", "forwhile"], tier, seed, trace_fams=("compile",),
+        "C01", ["compile", "deep", "shared", "scoping", "fold", "forwhile", "literals"], tier, seed, trace_fams=("compile",),
         rule="TLC enumerates the program family of MC_Compile.tla (every expression form x small type universe, wrapped by "
              "Observe so that the value of the form under test is compared with an EXP witness) and, per program, every "
              "witness assignment of the bounded witness space. For each it checks inside the model that strict CBV "
